@@ -35,6 +35,30 @@ CLAIMED = {
              "is modelled (split/int) and correspondence-checked, not proved equal to the tuple form.",
         technique="Coq proof (model = declarative filter) + differential correspondence on real databases",
         design="4 (C06)"),
+    "C01": dict(
+        text="Coq theorems (Properties/C01.v, 6 statements, closed under the global context) about the model of create_db as "
+             "C01 sees it (Model/File.v: peek window + vote or supplied dialect, second pass parsing every line with that "
+             "dialect, rows handed back in input order carrying the database dialect and the keep_order / "
+             "sort_attribute_values switches): for every file written in one of the 36 styles, every checklines value and "
+             "every setting, each line is stored exactly once, in order, with its eight columns, coordinates, attribute keys "
+             "and decoded values and extra columns (C01_once_in_order); with keep_order the printed features are the input "
+             "lines byte for byte (C01_print_identity); re-importing the printed features gives the same content "
+             "(C01_reimport); the second-pass parser path (supplied dialect) agrees with the inference path on every fitting "
+             "dialect (C01_with_dialect_agrees) and printing with the file-level dialect - whose key order is the first-seen "
+             "union over the window - reproduces each line (C01_print_with_file_dialect). These compose the C07 and C09 "
+             "theorems. Tied to create.py/interface.py/feature.py/parser.py/iterators.py by ~360 whole files per quick run "
+             "through the real create_db (:memory: and file), all_features, str(), close + reopen and re-import, compared "
+             "inside Coq with the model and with the input lines themselves.",
+        note="Trusted: Coq kernel + vm_compute; Model/File.v, Model/Parser.v, Model/Dialect.v hand-written, tied by the "
+             "correspondence; simplejson storage of attributes/extra/dialect modelled as the identity (checked by the reopen "
+             "observations). Domain (boolean, evaluated in Coq on every generated file, inhabited in all 36 styles with a "
+             "window shorter than the file: Examples/C01_inhabited.v): wf_feature per line, and `fits`: the voted dialect has "
+             "the style's format/separators/quoting/trailing semicolon, its repeated-keys flag matches on lines that repeat a "
+             "key, and each line's keys are in the order the dialect prints them (documented single-order limitation of "
+             "keep_order; files violating only this are counted out_of_domain). Ids are autoincremented and GTF inference is "
+             "off in the correspondence (C04/C05/C03 own those); byte identity is claimed for sort_attribute_values=False.",
+        technique="Coq proof (composition of the parse, print and vote theorems over whole files) + differential correspondence on whole files incl. reopen and re-import",
+        design="4 (C01)"),
     "C07": dict(
         text="Coq theorems (Properties/C07.v, closed under the global context), for ALL 36 styles (key=value / key \"value\" / key "
              "value x ';' '; ' ' ; ' x trailing semicolon x comma lists or repeated keys), any number of attributes and values and "
